@@ -1155,3 +1155,16 @@ V("triggers-rows-from-used-domains", "break", ["C16", "C13"], PB, "        self.
   "the wake-up table gets one row per shared domain a variable uses (C16-y2): a decision on an unused trailing domain reads past it", "init", expect_rule="R-INIT-COHERENCE")
 V("level-pointer-signed", "break", ["C19", "C16"], BS, "        self.stacks_top = np.ones((1,), dtype=np.uint8)\n", "        self.stacks_top = np.ones((1,), dtype=np.int8)\n",
   "signed 8-bit level pointer while heights up to 256 are accepted (C19-y2): wraps to -128 at level 128", "__init__", expect_rule="R-CAPACITY")
+# ---- reset handed the root domains by its callers (round 7, neutral corpus D-n6)
+_RESET_SIG = [{"old": "    problem: Problem,\n", "new": "    shr_domains_arr: NDArray,\n", "within": "def reset("},
+              {"old": "        np.array(problem.shr_domains_lst),\n", "new": "        shr_domains_arr,\n", "within": "def reset("}]
+V("reset-root-built-once-per-optimisation", "neutral", ["C01", "C03", "C08", "C11", "C12", "C15"], BS, None, None,
+  "reset() is handed the root domains, a fresh np.array(problem.shr_domains_lst) the optimisation loop takes once before it starts",
+  edits=_RESET_SIG + [{"old": "            reset(\n                self.problem,\n", "new": "            reset(\n                initial_shr_domains,\n", "all": True},
+                      {"old": "        logger.debug(f\"Optimizing variable {variable_idx}\")\n", "new": "        logger.debug(f\"Optimizing variable {variable_idx}\")\n        initial_shr_domains = np.array(self.problem.shr_domains_lst)\n"},
+                      {"old": "        logger.debug(f\"Optimizing variable {variable_idx} and queuing solutions found\")\n", "new": "        logger.debug(f\"Optimizing variable {variable_idx} and queuing solutions found\")\n        initial_shr_domains = np.array(self.problem.shr_domains_lst)\n"}])
+V("reset-root-cached-in-constructor", "break", ["C12", "C15"], BS, None, None,
+  "the same reset(), handed a copy of the root domains kept on the solver since its construction (a problem edited or split afterwards is solved on its old domains)",
+  "reset", expect_rule="R-DOMAIN-SOURCE",
+  edits=_RESET_SIG + [{"old": "            reset(\n                self.problem,\n", "new": "            reset(\n                self.initial_shr_domains,\n", "all": True},
+                      {"old": "        self.statistics = np.array([0] * STATS_MAX, dtype=np.int64)\n", "new": "        self.statistics = np.array([0] * STATS_MAX, dtype=np.int64)\n        self.initial_shr_domains = np.array(problem.shr_domains_lst)\n"}])
